@@ -85,12 +85,15 @@ func (c *Cache[K, V]) set(key K, value V, ttl time.Duration, callback func(K, V)
 // Every acquisition is non-blocking, so contention just returns false and leaves the
 // write for the async queue, preserving the SetAsync contract and write batching.
 func (c *Cache[K, V]) tryApplyInline(s *shard[K, V], cmd *writeCommand[K, V]) bool {
+	verifYield(321)
 	if !s.queue.quiescent() {
 		return false
 	}
+	verifYield(322)
 	if !s.drainMu.TryLock() {
 		return false
 	}
+	verifYield(323)
 	if c.isClosed() || !s.queue.quiescent() || !s.mu.TryLock() {
 		s.drainMu.Unlock()
 		return false
@@ -211,6 +214,7 @@ func (c *Cache[K, V]) syncMutate(s *shard[K, V], apply func()) error {
 		return ErrCacheClosed
 	}
 
+	verifYield(331)
 	s.drainMu.Lock()
 	defer s.drainMu.Unlock()
 
@@ -220,6 +224,7 @@ func (c *Cache[K, V]) syncMutate(s *shard[K, V], apply func()) error {
 
 	c.drainShardQueue(s)
 
+	verifYield(332)
 	s.mu.Lock()
 	apply()
 	s.mu.Unlock()
@@ -307,8 +312,12 @@ func (c *Cache[K, V]) clearDirect() {
 
 func (c *Cache[K, V]) writeWorker(s *shard[K, V]) {
 	defer c.workers.Done()
+	if verifEnabled {
+		verifAdopt(verifWorkerID(c, s))
+	}
 
 	for {
+		verifYield(301)
 		select {
 		case <-s.wake:
 			// Drain, then re-arm under the wake-coalescing protocol. Clearing wakeState
@@ -318,17 +327,22 @@ func (c *Cache[K, V]) writeWorker(s *shard[K, V]) {
 			// failed re-arm CAS means a producer left a token, so break and let the next
 			// select consume it.
 			for {
+				verifYield(302)
 				c.drainShard(s)
+				verifYield(303)
 				s.queue.wakeState.Store(0)
+				verifYield(304)
 				if !s.queue.ready() {
 					break
 				}
+				verifYield(305)
 				if !s.queue.wakeState.CompareAndSwap(0, 1) {
 					break
 				}
 			}
 		case <-c.closeCh:
 			// final drain catches any writes accepted during shutdown then exit.
+			verifYield(308)
 			c.drainShard(s)
 			return
 		}
@@ -347,6 +361,7 @@ func (c *Cache[K, V]) tryDrainShard(s *shard[K, V]) {
 }
 
 func (c *Cache[K, V]) drainShard(s *shard[K, V]) {
+	verifYield(311)
 	s.drainMu.Lock()
 	c.drainShardQueue(s)
 	s.drainMu.Unlock()
@@ -389,6 +404,7 @@ func (c *Cache[K, V]) applyWriteBatch(s *shard[K, V], batch []writeCommand[K, V]
 	var callbacks []callbackTask[K, V]
 	var now int64
 
+	verifYield(312)
 	s.mu.Lock()
 	for i := range batch {
 		cmd := &batch[i]
@@ -410,6 +426,7 @@ func (c *Cache[K, V]) applyWriteBatch(s *shard[K, V], batch []writeCommand[K, V]
 		}
 	}
 	s.mu.Unlock()
+	verifYield(313)
 
 	for _, task := range callbacks {
 		c.scheduleCallback(task)
